@@ -13,6 +13,8 @@ import (
 	"os/exec"
 	"strconv"
 	"strings"
+	"sync"
+	"sync/atomic"
 	"time"
 )
 
@@ -216,6 +218,19 @@ func (s *Solver) readLine() (string, error) {
 
 // Check decides satisfiability of base assertions ∧ extra. With wantModel it
 // returns values for every declared symbol.
+var queryStats sync.Map // tag -> *[3]int64 (unsat, sat, unknown)
+
+func countQuery(tag string, r SatResult) {
+	v, _ := queryStats.LoadOrStore(tag, &[3]int64{})
+	atomic.AddInt64(&v.(*[3]int64)[r], 1)
+}
+
+func (s *Solver) CheckT(tag string, extra *Term, wantModel bool) (SatResult, Model) {
+	r, m := s.Check(extra, wantModel)
+	countQuery(tag, r)
+	return r, m
+}
+
 func (s *Solver) Check(extra *Term, wantModel bool) (SatResult, Model) {
 	var sb strings.Builder
 	if extra != nil {
